@@ -451,7 +451,7 @@ def rand_cfg(rng: random.Random, tuples: bool) -> dict:
             )
         )
     return {
-        "name": rng.choice(["t", "sim test", "a/b:c", "näme", "x" * 12, "cfg-1.0", "UPPER lower"]),
+        "name": rng.choice(["t", "sim test", "a/b:c", "näme", "x" * 12, "cfg-1.0", "UPPER lower", "long-" + "n" * rng.choice([90, 120, 200]), "", "a.b", " lead", "trail "]),
         "grid_n": n,
         "n_mazes": rng.choice([1, 5, 10, 999, 1000, 1234, 10000, 123456, 10**6]),
         "maze_ctor": gen,
